@@ -31,3 +31,6 @@ EQUIVALENT = [
     ('names', G, "            n_clu = np.max(sc) + 1\n            n_tmp = np.max(st) + 1\n            sc += coffset\n            st += toffset\n", "            n_clu = 1 + np.max(sc)\n            n_tmp = 1 + np.max(st)\n            st += toffset\n            sc += coffset\n"),
 ]
 BREAKING.append(('metadata offsets zipped with the probes that have the file', 'phylib/io/merge.py', "            for subdir, offset in zip(self.subdirs, self.cluster_offsets):\n                try:\n                    field_name, metadata_loc = _read_tsv_simple(subdir / fn)\n                except ValueError:\n                    # Skipping non-existing file.\n                    continue\n", "            paths = [subdir / fn for subdir in self.subdirs if (subdir / fn).exists()]\n            for path, offset in zip(paths, self.cluster_offsets):\n                field_name, metadata_loc = _read_tsv_simple(path)\n", ['C11.S1']))
+BREAKING.append(('probe directories merged in reverse order', G, "        self.subdirs = [Path(subdir) for subdir in subdirs]", "        self.subdirs = [Path(subdir) for subdir in subdirs][::-1]", ['C11.A1']))
+BREAKING.append(('probe directories de-duplicated through a set', G, "        self.subdirs = [Path(subdir) for subdir in subdirs]", "        self.subdirs = list({Path(subdir) for subdir in subdirs})", ['C11.A1']))
+EQUIVALENT.append(('probe directories through map', G, "        self.subdirs = [Path(subdir) for subdir in subdirs]", "        self.subdirs = list(map(Path, subdirs))"))
